@@ -1248,6 +1248,8 @@ class Engine:
                 return Int(z3.Extract(bits - 1, 0, t), bits, sg, None, rng)
             return Int(z3.SignExt(bits - a.bits, t) if a.sg else z3.ZeroExt(bits - a.bits, t), bits, sg, None, rng)
         if kind in ('PointerCoercion', 'PtrToPtr', 'Transmute', 'PointerExposeProvenance', 'PointerWithExposedProvenance'):
+            if kind == 'Transmute' and isinstance(a, Ref) and int_ty(ty):
+                return Int(0x10000, 64)         # address of a live allocation: non-null and aligned (allocation never fails, DESIGN.md 2.1)
             if kind == 'Transmute' and isinstance(a, (Int, Float)):
                 it = int_ty(ty)
                 if isinstance(a, Int) and it and it[0] == a.bits:
